@@ -171,11 +171,14 @@ impl<'c> Slice<'c> {
             initial_id,
         );
 
-        let mut records = vec![Record::default(); self.header.record_count()];
+        // The record count is not trusted to preallocate the list: it grows as records are read.
+        let mut records = Vec::new();
 
-        for record in &mut records {
-            reader.read_record(record)?;
+        for _ in 0..self.header.record_count() {
+            let mut record = Record::default();
+            reader.read_record(&mut record)?;
             record.header = Some(header);
+            records.push(record);
         }
 
         Ok(records)
